@@ -130,7 +130,7 @@ func init() {
 				{Name: "mark", Pkg: "", PkgName: "main", Files: []string{"main/c07.go"}, SymFiles: []string{"main/tmp_sym.go"}, NatFiles: []string{"main/tmp_native.go"},
 					Entry: "verifHarness_C07_mark", Unwind: 8,
 					Redirect:      map[string]string{"(*" + repoMod + ".FSM).applyRobustMessage": "verifStub_applyRobustMessage"},
-					NativePatches: []NativePatch{{Module: "github.com/stapelberg/glog", File: "glog.go", Old: "os.Exit(255)", New: "panic(\"verif-process-exit\")"}}},
+					NativePatches: markNativePatches},
 				{Name: "replay", Pkg: "internal/ircserver", PkgName: "ircserver", Files: ircFiles, SymFiles: ircSym, NatFiles: ircNat,
 					Entry: "verifHarness_C07_replay", Params: tp, Unwind: 8, Solver: "z3-new"},
 				{Name: "snapshot", Pkg: "", PkgName: "main", Files: []string{"main/c02.go", "main/c07.go", "main/c16.go"}, SymFiles: []string{"main/tmp_sym.go"}, NatFiles: []string{"main/tmp_native.go"},
@@ -201,6 +201,13 @@ func init() {
 		Functions: []string{"ircserver.(*IRCServer).Marshal", "ircserver.(*IRCServer).Unmarshal", "ircserver.timeToTimestamp", "ircserver.timestampToTime", "config.Duration.String", "config.HexString.String"},
 		Rule:      "one case per shape group and feasible path through Marshal/Unmarshal; non-trivial when the field-by-field comparison is reached",
 	})
+}
+
+// native stand-ins for the mark harness: glog.Fatalf becomes an observable panic and the
+// state machine step is the harness stub, as in the symbolic run
+var markNativePatches = []NativePatch{
+	{Module: "github.com/stapelberg/glog", File: "glog.go", Old: "os.Exit(255)", New: "panic(\"verif-process-exit\")"},
+	{Module: "", File: "statemachine.go", Old: "fsm.applyRobustMessage(msg, ircServer, outputStream)", New: "verifStub_applyRobustMessage(fsm, msg, ircServer, outputStream)"},
 }
 
 func apiRedirects() map[string]string {
@@ -369,7 +376,7 @@ func init() {
 			runs = append(runs, HarnessRun{Name: "marked", Pkg: "", PkgName: "main", Files: []string{"main/c07.go"}, SymFiles: []string{"main/tmp_sym.go"}, NatFiles: []string{"main/tmp_native.go"},
 				Entry: "verifHarness_C10_marked", Unwind: 8,
 				Redirect:      map[string]string{"(*" + repoMod + ".FSM).applyRobustMessage": "verifStub_applyRobustMessage"},
-				NativePatches: []NativePatch{{Module: "github.com/stapelberg/glog", File: "glog.go", Old: "os.Exit(255)", New: "panic(\"verif-process-exit\")"}}})
+				NativePatches: markNativePatches})
 			return runs
 		},
 		Assumptions: append(append([]string{}, ircAssumptions...), "raft is replaced by a recording stub: a proposal is observed, not committed", "persistence of the marker across snapshot/restore is C03's sessions obligation; the MessageOfDeath case is C07's replay half"),
